@@ -336,6 +336,8 @@ impl Group for C12Node {
         let (mut st, mut sf, mut sr) = (false, false, false);
         // last approval request: (is_invoice, amount, counted as approved by the harness)
         let mut last_req: Option<(bool, u64, bool)> = None;
+        // the policy spec in force according to the ops (the oracle never trusts the node's own limit)
+        let mut cur_spec: Option<(u64, String)> = None;
         for (i, op) in ops.iter().enumerate() {
             let t0: Vec<&str> = op.split_whitespace().collect();
             // a retry re-issues the previous request unchanged (same payment hash, same amount)
@@ -353,6 +355,7 @@ impl Group for C12Node {
             let line = match t.as_slice() {
                 ["n_new", l, ty] => {
                     last_req = None;
+                    cur_spec = Some((l.parse().unwrap(), ty.to_string()));
                     let n = Arc::new(Node::new(config, &seed, vec![], services(persister.clone(), clock.clone(), l.parse().unwrap(), itype(ty).unwrap())));
                     persister.new_node(&n.get_id(), &config, &*n.get_state()).unwrap();
                     persister.new_tracker(&n.get_id(), &n.get_tracker()).unwrap();
@@ -399,10 +402,11 @@ impl Group for C12Node {
                         Err(_) => { co.tags.insert("keysend:panic".into()); "panic".to_string() }
                         Ok(Err(e)) => { co.tags.insert("keysend:err".into()); format!("err {:?}", e.code()) }
                         Ok(Ok(ok)) => {
-                            let (d, limit, wlen) = {
-                                let s = n.get_state();
-                                let v = &s.velocity_control;
-                                (digest(v), v.limit, (v.buckets.len() as u64 - 1) * v.bucket_interval as u64)
+                            let d = digest(&n.get_state().velocity_control);
+                            let (limit, wlen) = match &cur_spec {
+                                Some((l, ty)) if ty == "d" => (*l, 23 * 3600u64),
+                                Some((l, _)) => (*l, 11 * 300u64),
+                                None => (u64::MAX, 0),
                             };
                             last_req = Some((is_invoice, amt, ok || already_counted));
                             if dup { co.tags.insert(format!("dup:{}", ok)); }
@@ -432,12 +436,13 @@ impl Group for C12Node {
                 ["n_restart", l, ty] => {
                     sr = true;
                     let old = node.take().expect("n_new first");
-                    let old_limit = old.get_state().velocity_control.limit;
                     drop(old);
                     let (node_id, entry) = persister.get_nodes().unwrap().into_iter().next().unwrap();
                     let n = Node::restore_node(&node_id, entry, &seed, services(persister.clone(), clock.clone(), l.parse().unwrap(), itype(ty).unwrap())).unwrap();
                     let d = digest(&n.get_state().velocity_control);
-                    if n.get_state().velocity_control.limit != old_limit { log.clear(); co.tags.insert("restart:spec-changed".into()); } else { co.tags.insert("restart:kept".into()); }
+                    let new_spec = Some((l.parse::<u64>().unwrap(), ty.to_string()));
+                    if new_spec != cur_spec { log.clear(); co.tags.insert("restart:spec-changed".into()); } else { co.tags.insert("restart:kept".into()); }
+                    cur_spec = new_spec;
                     node = Some(n);
                     format!("ok {}", d)
                 }
